@@ -280,6 +280,14 @@ func (d *duplexHTTPCall) makeRequest() {
 		d.SetError(err)
 		return
 	}
+	if response.StatusCode == http.StatusSwitchingProtocols {
+		// For a 101, net/http hands us the raw connection as the body: it has no
+		// end, and the request's context no longer governs it. We never asked to
+		// switch protocols, so give the connection up and treat the response as
+		// the body-less one it is.
+		_ = response.Body.Close()
+		response.Body = http.NoBody
+	}
 	d.response = response
 	if err := d.validateResponse(response); err != nil {
 		d.SetError(err)
